@@ -148,6 +148,34 @@ func (e *Enc) solve(opt solveOpts) {
 			hms = 5000
 		}
 		e.runBatch(solvers[0], hob, off, hms)
+		// a candidate is dropped only when it is refuted; one that merely timed out (a loaded machine) is put
+		// to the solvers again, alone and with a longer limit, and if it stays undecided the function is
+		// marked: dropping it silently would turn the obligations that rest on it into refutations
+		var slow []*Oblig
+		for _, o := range hob {
+			if o.Verdict != "unsat" && o.Verdict != "sat" {
+				slow = append(slow, o)
+			}
+		}
+		if len(slow) > 0 {
+			for _, cfg := range solvers {
+				var again []*Oblig
+				for _, o := range slow {
+					if o.Verdict != "unsat" && o.Verdict != "sat" {
+						again = append(again, o)
+					}
+				}
+				if len(again) == 0 {
+					break
+				}
+				e.runBatchC(cfg, again, off, 4*hms, 1)
+			}
+			for _, o := range slow {
+				if o.Verdict != "unsat" && o.Verdict != "sat" {
+					e.houdiniUndecided = append(e.houdiniUndecided, o.Name)
+				}
+			}
+		}
 		changed := false
 		for _, o := range hob {
 			if o.Verdict != "unsat" {
